@@ -5,6 +5,7 @@ open Neutrino.GetBlock
 #print axioms C06_ban_only_by_handler
 #print axioms C06_ignore_others
 #print axioms C06_fail_closed
+#print axioms C06_sibling_ignored
 #print axioms C06_retry_after_ban
 #print axioms C06_cache_after_success
 #print axioms C06_progress
